@@ -292,7 +292,9 @@ class WCSHelper(object):
             The magnitude (pixels) and angle (degrees) of the vector.
 
         """
-        ra, dec = pos
+        # plain floats: a float32 (or integer) position must not drag the
+        # spherical trigonometry of translate down to that precision
+        ra, dec = float(pos[0]), float(pos[1])
         x, y = self.sky2pix(pos)
         a = translate(ra, dec, r, pa)
         locations = self.sky2pix(a)
@@ -355,7 +357,8 @@ class WCSHelper(object):
             to the ellipse being aligned with the x-axis.
 
         """
-        ra, dec = pos
+        # plain floats, as in sky2pix_vec
+        ra, dec = float(pos[0]), float(pos[1])
         x, y = self.sky2pix(pos)
 
         x_off, y_off = self.sky2pix(translate(ra, dec, a, pa))
